@@ -413,6 +413,8 @@ class History:
                 self.v("C20", "enum-count", {"op": cnt, "kind": "count-vs-accessor"}, "%s() = %d but %s returns %s (and %d past the end)" % (cnt, n, acc, got[:10], self.call(acc, n)))
             if len(set(got)) != len(got):
                 self.v(prop, "enum-duplicates", {"op": cnt, "kind": "duplicate"}, "%s lists an entity twice: %s" % (acc, sorted(got)))
+                # ... which is also C20's "each enumeration count equals the number of entries its accessor actually returns"
+                self.v("C20", "enum-duplicates", {"op": cnt, "kind": "duplicate"}, "%s() = %d but %s returns only %d distinct entities: %s" % (cnt, n, acc, len(set(got)), sorted(got)[:12]))
             if which == "all":
                 want = set(mc.recs[kind])
             else:
@@ -650,6 +652,11 @@ class History:
             elif k == "reg_mod":
                 self.reg_mod(op["lib"], op)
                 self.reg_order.append(op["lib"])
+            elif k == "reg_again":
+                # the same module definition handed over once more (a module's initialisation code running again): no effect
+                d = self.defs.get(op["lib"])
+                if d is not None:
+                    self.call("interrogate_request_module", ctypes.byref(d))
             elif k == "flag":
                 self.check_flag("flag op")
             elif k == "count":
